@@ -711,6 +711,18 @@ class ObjectDomain(EffectDomain):
             if isinstance(cur, tuple) and cur[:1] == ("tuple",) and len(pos) == 1:
                 return [val(NONE, st.set(fn[1], cur + (pos[0],)))]
             return [val(NONE, st.set(fn[1], TOP))]
+        if tag == "attrgetter" and len(pos) == 1 and isinstance(fn[1], tuple):
+            cur = [val((), st)]
+            for path in fn[1]:
+                nxt = []
+                for acc in cur:
+                    if acc.kind == "exc":
+                        nxt.append(acc)
+                        continue
+                    for g in self._getattr_path(interp, pos[0], path, acc.state, fr):
+                        nxt.append(g if g.kind == "exc" else val(acc.value + (g.value,), g.state))
+                cur = nxt
+            return [r if r.kind == "exc" else val(("tuple",) + r.value, r.state) for r in cur]
         if tag == "attrgetter" and len(pos) == 1:
             return self._getattr_path(interp, pos[0], fn[1], st, fr)
         if tag == "itemgetter" and len(pos) == 1:
@@ -972,6 +984,29 @@ class ObjectDomain(EffectDomain):
                 kw = tuple((k.arg, ref_or_value(k.value, v)) for k, v in zip(call.keywords, r.value[len(call.args):]))
                 out.append(val(("partial", r.value[0], pos, kw), r.state))
             return out
+        if d.split(".")[-1] == "attrgetter" and d.split(".")[0] in ("operator", "attrgetter") and not call.keywords and (len(call.args) > 1 or any(isinstance(a, ast.Starred) for a in call.args)):
+            # attrgetter(a, b, ...): a tuple of the attributes
+            out = []
+            for bad, pos, kw, s2 in self._call_args(interp, call, st, fr):
+                if bad is not None:
+                    out.append(bad)
+                elif pos is None or not all(isinstance(v, tuple) and v[:1] == ("const",) and isinstance(v[1], str) for v in pos):
+                    out.append(val(TOP, s2))
+                else:
+                    out.append(val(("attrgetter", tuple(v[1] for v in pos)), s2))
+            return out
+        if d == "zip" and call.args and not call.keywords and not any(isinstance(a, ast.Starred) for a in call.args):
+            out = []
+            for r in interp._forced(interp.eval_list(list(call.args), st, fr), fr):
+                if r.kind == "exc":
+                    out.append(r)
+                    continue
+                seqs = [interp._exact_elements(v) for v in r.value]
+                if any(x is None for x in seqs):
+                    out.append(val(TOP, r.state))
+                else:
+                    out.append(val(("tuple",) + tuple(("tuple",) + tuple(t) for t in zip(*seqs)), r.state))
+            return out
         if d.split(".")[-1] in ("attrgetter", "itemgetter") and d.split(".")[0] in ("operator", "attrgetter", "itemgetter") and len(call.args) == 1 and not call.keywords:
             out = []
             for r in interp.eval(call.args[0], st, fr):
@@ -984,6 +1019,8 @@ class ObjectDomain(EffectDomain):
                 else:
                     out.append(val(TOP, r.state))
             return out
+        if d == "iter" and len(call.args) == 2 and not call.keywords:
+            return [r if r.kind == "exc" else val(("calliter", r.value[0], r.value[1]), r.state) for r in interp.eval_list(list(call.args), st, fr)]
         if d in ("itertools.repeat", "repeat") and len(call.args) == 1 and not call.keywords:
             return [r if r.kind == "exc" else val(("repeat", r.value), r.state) for r in interp.eval(call.args[0], st, fr)]   # the same object, for ever
         short = d.split(".")[-1]
@@ -1185,6 +1222,12 @@ class ObjectDomain(EffectDomain):
             return [(interp._exact_elements(r.value) if r.kind == "val" else None, r.state) for r in got]
         return [(interp._exact_elements(value), st)]
 
+    def pullable(self, v):
+        return isinstance(v, tuple) and v[:1] in (("calliter",), ("repeat",)) or (isinstance(v, tuple) and v[:1] == ("lazymap",) and len(v) == 3 and self.pullable(v[2]))
+
+    def pull(self, interp, seq, st, fr):
+        return self._pull(interp, seq, st, fr)
+
     def _pull(self, interp, seq, st, fr):
         """One step of iterating ``seq`` (lazily): -> list of ("item", element, rest, state) | ("end", None, None, state) |
         ("exc", exception, None, state) | ("unknown", None, None, state)."""
@@ -1196,6 +1239,19 @@ class ObjectDomain(EffectDomain):
             return [("item", seq[1], ("tuple",) + tuple(seq[2:]), st)]
         if isinstance(seq, tuple) and seq[:1] == ("repeat",) and len(seq) == 2:
             return [("item", seq[1], seq, st)]
+        if isinstance(seq, tuple) and seq[:1] == ("calliter",) and len(seq) == 3:
+            # iter(f, sentinel): f() until it returns the sentinel
+            out = []
+            for r in self.apply(interp, seq[1], [], [], st, fr):
+                if r.kind == "exc":
+                    out.append(("exc", r.value, None, r.state))
+                    continue
+                v = unbox_deep(r.value, r.state)
+                same = True if v == seq[2] and v != TOP else self._values_equal(v, seq[2]) if hasattr(self, "_values_equal") else None
+                if same is None and (self.is_none(seq[2]) == "T") and self.is_none(v) in ("T", "F"):
+                    same = self.is_none(v) == "T"
+                out.append(("end", None, None, r.state) if same is True else ("item", r.value, seq, r.state) if same is False else ("unknown", None, None, r.state))
+            return out
         if isinstance(seq, tuple) and seq[:1] == ("lazymap",) and len(seq) == 3:
             out = []
             for kind, el, rest, s1 in self._pull(interp, seq[2], st, fr):
